@@ -41,7 +41,9 @@ verus! {
 
 #[verifier::external_body] pub struct Cte { _p: u8 }
 pub uninterp spec fn cte_is_loop(c: Cte) -> bool;
-pub type Context = OpaqueT;
+pub struct DialectShim { pub flag_set_ops_distinct: bool }
+impl DialectShim { pub fn set_ops_distinct(&self) -> (r: bool) ensures r == self.flag_set_ops_distinct, { self.flag_set_ops_distinct } }
+pub struct Context { pub dialect: DialectShim, pub rest: OpaqueT }
 #[verifier::external_body]
 pub fn translate_cte(cte: Cte, ctx: &mut Context) -> (r: Result<(OpaqueT, bool), Error>)
     ensures r is Ok ==> r->Ok_0.1 == cte_is_loop(cte),
@@ -52,7 +54,9 @@ pub mod sql_ast {
     pub struct With { pub recursive: bool, pub cte_tables: Vec<OpaqueT>, pub with_token: OpaqueT }
     pub struct Query { pub with: Option<With> }
     pub enum SetQuantifier { All, Distinct, ByName, AllByName, DistinctByName, None }
+    pub enum SetOperator { Union, Except, Intersect, Minus }
 }
+use sql_ast::SetQuantifier; use sql_ast::SetOperator;
 """
 
 
@@ -110,19 +114,113 @@ def build(X):
     """, fn_name="attach_ctes")
     w.rewrites.append({"rule": "slice", "what": "then-block of `if !pq_query.ctes.is_empty()` of translate_query wrapped as fn attach_ctes(query, ctes, ctx)"})
 
-    # ---- set quantifier
-    src = X.read(GEN_QUERY)
-    sq = X.slice(GEN_QUERY, "translate_set_ops_pipeline", "set_quantifier: if distinct {", "op,", name="set_quantifier_slice", include_end=False)
-    expr = sq.text[len("set_quantifier:"):].rstrip().rstrip(",")
-    expr = re.sub(r"\bcontext\.dialect\.set_ops_distinct\(\)", "set_ops_distinct", expr)
-    if "set_ops_distinct" not in expr:
-        raise ExtractionError("set quantifier expression: dialect flag set_ops_distinct() not found")
-    sq.rewrites.append({"rule": "R5", "what": "context.dialect.set_ops_distinct() is a parameter of the slice"})
-    sq.text = ("pub fn set_quantifier_slice(distinct: bool, set_ops_distinct: bool) -> (q: sql_ast::SetQuantifier)\n"
-               "    ensures\n"
-               "        // ALL iff duplicates are kept; the DISTINCT keyword only where the dialect accepts it (plain UNION / EXCEPT / INTERSECT are distinct already)\n"
-               "        (q is All) <==> !distinct, // @SQ1\n"
-               "        (q is Distinct) ==> (distinct && set_ops_distinct), // @SQ2\n"
-               "{\n    " + expr + "\n}\n")
-    sq.rewrites.append({"rule": "slice", "what": "the `set_quantifier:` field expression of translate_set_ops_pipeline wrapped as fn set_quantifier_slice"})
+    # ---- set quantifier: the value of the `set_quantifier:` field - an if-expression in place, or a call of a function of the same file, which is then the
+    # function under contract (the call must hand it `distinct` and the context)
+    whole = X.fn(GEN_QUERY, "translate_set_ops_pipeline").text
+    p0 = whole.find("set_quantifier:")
+    if p0 < 0:
+        raise ExtractionError("slice start lost: 'set_quantifier:' in fn translate_set_ops_pipeline (%s)" % GEN_QUERY)
+    depth, p1 = 0, None
+    for k in range(p0, len(whole)):
+        ch = whole[k]
+        if ch in "([{":
+            depth += 1
+        elif ch in ")]}":
+            depth -= 1
+            if depth < 0:
+                p1 = k
+                break
+        elif ch == "," and depth == 0:
+            p1 = k
+            break
+    sq = X.slice(GEN_QUERY, "translate_set_ops_pipeline", "set_quantifier:", whole[p0:p1][-25:], name="set_quantifier_slice")
+    expr = sq.text[len("set_quantifier:"):].strip().rstrip(",").strip()
+    contract = ("    ensures\n"
+                "        // ALL iff duplicates are kept; the DISTINCT keyword only where the dialect accepts it (plain UNION / EXCEPT / INTERSECT are distinct already)\n"
+                "        (q is All) <==> !%(d)s, // @SQ1\n"
+                "        (q is Distinct) ==> (%(d)s && %(f)s), // @SQ2\n")
+    mcall = re.match(r"^(\w+)\s*\((.*)\)$", expr, re.S)
+    if expr.startswith("if "):
+        expr = re.sub(r"\bcontext\.dialect\.set_ops_distinct\(\)", "set_ops_distinct", expr)
+        if "set_ops_distinct" not in expr:
+            raise ExtractionError("set quantifier expression: dialect flag set_ops_distinct() not found")
+        sq.rewrites.append({"rule": "R5", "what": "context.dialect.set_ops_distinct() is a parameter of the slice"})
+        sq.text = ("pub fn set_quantifier_slice(distinct: bool, set_ops_distinct: bool) -> (q: sql_ast::SetQuantifier)\n"
+                   + contract % {"d": "distinct", "f": "set_ops_distinct"} + "{\n    " + expr + "\n}\n")
+        sq.rewrites.append({"rule": "slice", "what": "the `set_quantifier:` field expression of translate_set_ops_pipeline wrapped as fn set_quantifier_slice"})
+    elif mcall:
+        callee = X.fn(GEN_QUERY, mcall.group(1)).pub_all()
+        args = [a.strip() for a in mcall.group(2).split(",") if a.strip()]
+        head = re.search(r"fn\s+%s\s*\((.*?)\)\s*->\s*(?:sql_ast::)?SetQuantifier\s*\{" % mcall.group(1), callee.text, re.S)
+        if not head:
+            raise ExtractionError("set quantifier: fn %s does not return a SetQuantifier" % mcall.group(1))
+        params = [tuple(x.strip() for x in prm.split(":", 1)) for prm in head.group(1).split(",") if prm.strip()]
+        bools = [i for i, (n, t) in enumerate(params) if t == "bool"]
+        ctxs = [i for i, (n, t) in enumerate(params) if t in ("&Context", "&mut Context")]
+        if len(bools) != 1 or len(ctxs) != 1 or len(args) != len(params) or args[bools[0]] != "distinct" or args[ctxs[0]] not in ("context", "&context", "ctx"):
+            raise ExtractionError("set quantifier: call `%s` does not pass `distinct` and the context to one bool and one &Context parameter" % " ".join(expr.split()))
+        callee.rewrite_re("R6", r"->\s*(?:sql_ast::)?SetQuantifier\s*\{", "-> (q: sql_ast::SetQuantifier)\n" + contract % {"d": params[bools[0]][0], "f": "%s.dialect.flag_set_ops_distinct" % params[ctxs[0]][0]} + "{", count=1,
+                          why="result named; contract attached to the function the field value calls")
+        callee.rewrite_re("R9", r"\n\s*use sql_ast::\{[^}]*\};", "", count=None, why="function-local `use` of sqlparser names: the shim names are in scope at module level")
+        sq.rewrites.append({"rule": "slice", "what": "the `set_quantifier:` field of translate_set_ops_pipeline is the call `%s`: fn %s is under contract, the call site is checked to pass `distinct` and the context" % (" ".join(expr.split()), mcall.group(1))})
+        names = {"d": params[bools[0]][0], "f": "%s.dialect.flag_set_ops_distinct" % params[ctxs[0]][0]}
+        sq.text = (callee.text + "\n// the field value: the call, with the callee's contract as the only thing known about it\n"
+                   "pub fn set_quantifier_slice(%s) -> (q: sql_ast::SetQuantifier)\n" % ", ".join("%s: %s" % pt for pt in params)
+                   + contract % names + "{\n    %s(%s)\n}\n" % (mcall.group(1), ", ".join(n for n, _ in params)))
+    else:
+        raise ExtractionError("set quantifier expression: neither an if-expression nor a call: %s" % " ".join(expr.split())[:120])
     return PRELUDE + g.text + "\n" + w.text + "\n" + sq.text + "\n} // verus!\nfn main() {}\n"
+
+
+# ----------------------------------------------------------------------------- replay against the real compiler + SQLite (a dialect without DISTINCT after a set
+# operator and without EXCEPT ALL): every set operation, distinct and not, and a recursive CTE
+SETUP = ("create table t(a integer, b integer, c integer); create table u(a integer, b integer, c integer);"
+         "insert into t values (1,1,0),(1,1,0),(2,2,0),(3,3,0); insert into u values (1,1,9),(3,3,9),(4,4,9);")
+DISTINCT_FN = "let distinct = rel -> (from r = _param.rel | group {r.*} (take 1))\n"
+CASES = [
+    (DISTINCT_FN + "from t\nselect {a, b}\ndistinct\nintersect (from u | select {a, b})\n", [(1, 1), (3, 3)], "SQ2"),
+    (DISTINCT_FN + "from t\nselect {a, b}\nappend (from u | select {a, b})\ndistinct\n", [(1, 1), (2, 2), (3, 3), (4, 4)], "SQ2"),
+    (DISTINCT_FN + "from t\nselect {a, b}\ndistinct\nremove (from u | select {a, b})\n", [(2, 2)], "SQ2"),
+    ("from t\nselect {a, b}\nappend (from u | select {a, b})\n", [(1, 1), (1, 1), (1, 1), (2, 2), (3, 3), (3, 3), (4, 4)], "SQ1"),
+    # EXCEPT ALL does not exist in SQLite: the anti-join form is kept
+    ("from t\nselect {a, b}\nremove (from u | select {a, b})\n", [(2, 2)], "EX3"),
+    ("from [{n = 1}]\nloop (filter n < 4 | select {n = n + 1})\n", [(1,), (2,), (3,), (4,)], "WR1"),
+]
+
+
+def _try(src, exp, lab):
+    import replaylib
+    ok, sql = replaylib.compile_prql(src, "sql.sqlite")
+    rec = {"input": src, "expected": [list(r) for r in exp], "replay_kind": "rows", "label": lab}
+    if not ok:
+        rec.update(failing=True, observed=sql[:300])
+        return rec
+    ok2, rows = replaylib.sqlite_rows(SETUP, sql)
+    rows = sorted(tuple(r) for r in rows) if ok2 else rows
+    rec.update(failing=(not ok2) or rows != sorted(exp), observed=[list(r) for r in rows] if ok2 else "sqlite error: %s" % rows, sql=sql)
+    return rec
+
+
+def replay(failure):
+    lab = failure.get("obligation", "").split(".", 1)[-1]
+    for src, exp, l in sorted(CASES, key=lambda c: c[2][:2] != lab[:2]):
+        r = _try(src, exp, l)
+        if r["failing"]:
+            return r
+    return {"failing": False}
+
+
+def rerun(doc):
+    return _try(doc["input"], [tuple(r) for r in doc["expected"]], doc.get("label", ""))
+
+
+SWEEP_DOC = "every set operation, distinct and not, and a recursive CTE: compiled for SQLite by the real prqlc and executed"
+
+
+def sweep():
+    out = []
+    for src, exp, lab in CASES:
+        r = _try(src, exp, lab)
+        r["obligation"] = "set_ops." + lab
+        out.append(r)
+    return out
